@@ -202,6 +202,8 @@ static void dump_solution(std::ostream& out, LocalNetwork* IS)
   out << "],\"iterations\":" << IS->linearization_iterations();
 }
 
+static std::string g_outlying;
+
 int main(int argc, char** argv)
 {
   if (argc < 3) { std::cout << "{\"fatal\":\"usage\"}" << std::endl; return 2; }
@@ -261,14 +263,17 @@ int main(int argc, char** argv)
 
     out << "\"huge_abs_terms\":" << IS->huge_abs_terms() << ",";
     if (IS->huge_abs_terms()) {
-      out << "\"outlying\":[";
+      std::ostringstream ol;
+      ol << "\"outlying\":[";
       bool first = true;
       for (int i=1; i<=IS->observations_count(); i++)
         if (IS->test_abs_term(i)) {
-          if (!first) out << ","; first = false;
-          out << "{"; dump_obs_ident(out, IS->ptr_obs(i)); out << ",\"term\":"; num(out, IS->test_abs_term(i)); out << "}";
+          if (!first) ol << ","; first = false;
+          ol << "{"; dump_obs_ident(ol, IS->ptr_obs(i)); ol << ",\"term\":"; num(ol, IS->test_abs_term(i)); ol << "}";
         }
-      out << "],";
+      ol << "],";
+      g_outlying = ol.str();     // also reported when a later step throws
+      out << g_outlying;
       IS->remove_huge_abs_terms();
     }
 
@@ -308,16 +313,16 @@ int main(int argc, char** argv)
     return 0;
   }
   catch (const GNU_gama::Exception::adjustment& e) {
-    std::cout << "{\"stage\":\"exception\",\"class\":\"adjustment\",\"text\":" << jstr(e.str) << "}" << std::endl;
+    std::cout << "{" << g_outlying << "\"stage\":\"exception\",\"class\":\"adjustment\",\"text\":" << jstr(e.str) << "}" << std::endl;
   }
   catch (const GNU_gama::Exception::matvec& e) {
-    std::cout << "{\"stage\":\"exception\",\"class\":\"matvec\",\"code\":" << e.error() << ",\"text\":" << jstr(e.what()) << "}" << std::endl;
+    std::cout << "{" << g_outlying << "\"stage\":\"exception\",\"class\":\"matvec\",\"code\":" << e.error() << ",\"text\":" << jstr(e.what()) << "}" << std::endl;
   }
   catch (const GNU_gama::local::Exception& e) {
-    std::cout << "{\"stage\":\"exception\",\"class\":\"local\",\"text\":" << jstr(e.what()) << "}" << std::endl;
+    std::cout << "{" << g_outlying << "\"stage\":\"exception\",\"class\":\"local\",\"text\":" << jstr(e.what()) << "}" << std::endl;
   }
   catch (const std::exception& e) {
-    std::cout << "{\"stage\":\"exception\",\"class\":\"std\",\"text\":" << jstr(e.what()) << "}" << std::endl;
+    std::cout << "{" << g_outlying << "\"stage\":\"exception\",\"class\":\"std\",\"text\":" << jstr(e.what()) << "}" << std::endl;
   }
   return 0;
 }
